@@ -178,7 +178,7 @@ func hevcGenRPS(t *rapid.T, stRpsIdx, num int, prev []nalgen.HEVCRPSVars, maxDpb
 			if dPoc == 0 && ud {
 				// an entry with dPoc == 0 is dropped by (7-61)/(7-62) but kept by the HM reference decoder; no
 				// encoder codes it. Excluded by construction (grey area of the standard, not a library finding).
-				harness.Rec.Exclude("hevc-strps-dpoc-zero-entry (grey area)")
+				harness.Rec.Exclude("hevc-strps-dpoc-zero-entry")
 				u, ud = false, false
 			}
 			c.UsedByCurrPicFlag[j], c.UseDeltaFlag[j] = u, ud
@@ -319,7 +319,7 @@ func hevcGenVUI(t *rapid.T, tr *nalgen.HEVCSPSTree, l string) {
 	x := &tr.VUIExtra
 	x.AspectRatioInfoPresentFlag = rapid.Bool().Draw(t, l+"ar")
 	if x.AspectRatioInfoPresentFlag {
-		idc := rapid.IntRange(0, 17).Draw(t, l+"idc") // 17 stands for EXTENDED_SAR
+		idc := hevcUni(t, 18, l+"idc") // 17 stands for EXTENDED_SAR
 		if idc == 0 && hevcAvoid("hevc-vui-aspect-ratio-idc-0") {
 			harness.Rec.Exclude("hevc-vui-aspect-ratio-idc-0")
 			idc = 1
@@ -439,7 +439,7 @@ func hevcGenSPS(t *rapid.T, o hevcSPSOpts, l string) *nalgen.HEVCSPSTree {
 	} else {
 		s.SpsID = byte(rapid.IntRange(0, 15).Draw(t, l+"id"))
 	}
-	s.ChromaFormatIDC = byte(rapid.IntRange(0, 3).Draw(t, l+"chroma"))
+	s.ChromaFormatIDC = byte(hevcUni(t, 4, l+"chroma"))
 	if hevcPct(t, 40, l+"420") {
 		s.ChromaFormatIDC = 1
 	}
@@ -552,7 +552,7 @@ func hevcGenSPS(t *rapid.T, o hevcSPSOpts, l string) *nalgen.HEVCSPSTree {
 	}
 	// short-term RPSs
 	var num int
-	switch k := rapid.IntRange(0, 19).Draw(t, l+"nrps?"); {
+	switch k := hevcUni(t, 20, l+"nrps?"); {
 	case k < 3:
 		num = 0
 	case k < 7:
@@ -575,7 +575,7 @@ func hevcGenSPS(t *rapid.T, o hevcSPSOpts, l string) *nalgen.HEVCSPSTree {
 	s.LongTermRefPicsPresentFlag = hevcPct(t, 50, l+"lt")
 	if s.LongTermRefPicsPresentFlag {
 		var n int
-		switch k := rapid.IntRange(0, 9).Draw(t, l+"nlt?"); {
+		switch k := hevcUni(t, 10, l+"nlt?"); {
 		case k < 2:
 			n = 0
 		case k < 4:
